@@ -62,8 +62,13 @@ def minimise(prop, payload, viol):
         return v is not None and v["kind"] == kind
     if not test(payload["steps"]):
         return payload
-    steps = ddmin(payload["steps"], test)
-    return {"cfg": cfg, "steps": steps}
+    # structural steps (resources / objects) are never removed: ids of everything else stay stable
+    fixed = [s for s in payload["steps"] if s["t"] in ("new_res", "new_obj", "new_obj_data")]
+    rest = [s for s in payload["steps"] if s["t"] not in ("new_res", "new_obj", "new_obj_data")]
+    if [s for s in payload["steps"][:len(fixed)]] != fixed:
+        return payload   # structural steps are not a prefix (restart-style traces): leave as is
+    rest = ddmin(rest, lambda x: test(fixed + x))
+    return {"cfg": cfg, "steps": fixed + rest}
 
 
 def shape_sig(w, cfg, steps, extra=()):
@@ -71,7 +76,7 @@ def shape_sig(w, cfg, steps, extra=()):
     seq = []
     for s in steps:
         if s["t"] == "op":
-            h = w.handles[s["hid"]] if s["hid"] < len(w.handles) else None
+            h = w.handles[s["hid"]] if s.get("hid", 1 << 30) < len(w.handles) else None
             seq.append(("op", s["name"], len(h.path) if h else -1, h.oid if h else -1))
         elif s["t"] == "outside":
             seq.append(("outside", s["edit"][0]))
